@@ -93,6 +93,26 @@ theorem old_or_new_in_full (progs : List (List Op)) (hflat : ∀ p ∈ progs, fl
   obtain ⟨v, hs⟩ := view_seen hv
   exact ⟨t, v, ht, hs⟩
 
+/-- **Answered, not turned away.** A request or reload whose program takes the lock by waiting only
+(`RLock` / `Lock`, no `TryRLock` / `TryLock`) is never *refused* — it never returns an error because the lock
+happened to be busy — in any state reached by any schedule, next to any number of other threads whatever
+their programs are (flat or not, with or without `Try*`). -/
+theorem never_refused (progs : List (List Op)) (j : Nat) (p : List Op) (hj : progs[j]? = some p)
+    (hb : blocking p = true) (sched : List Nat) (s : St) (h : exec (init progs) sched = some s) :
+    ∃ t, s.ths[j]? = some t ∧ t.refused = false := by
+  have hj0 : (init progs).ths[j]? = some { prog := p } := by simp [init, hj]
+  obtain ⟨t, ht, ha⟩ := answered_exec h hj0 ⟨rfl, hb⟩
+  exact ⟨t, ht, ha.1⟩
+
+/-- … so when every program waits, every thread that has finished has done its work -/
+theorem none_refused (progs : List (List Op)) (hb : ∀ p ∈ progs, blocking p = true) (sched : List Nat) (s : St)
+    (h : exec (init progs) sched = some s) : anyRefused s = false := by
+  have ha := answered_all_exec h (answered_init progs hb)
+  unfold anyRefused
+  rw [List.any_eq_false]
+  intro t ht
+  simp [(ha t ht).1]
+
 /-! ### the real code: tables regenerated from the source on every run
 
 `Gen.selectorPaths` / `Gen.zmqPaths` hold every path through every exported entry point of
@@ -106,6 +126,11 @@ name occurs in the sources and how many of the occurrences the paths visit. -/
 package exports) is flat -/
 theorem selector_programs_flat : ∀ p ∈ Gen.selectorPrograms, flat p = true := by decide
 
+/-- every acquisition of `selectorMutex`, on every path through every entry point, waits for the lock
+(`RLock` in the requests, `Lock` in the reload): no `TryRLock` / `TryLock`, hence no branch in which a request
+or a reload gives up because the other side is in its critical section -/
+theorem selector_programs_blocking : ∀ p ∈ Gen.selectorPrograms, blocking p = true := by decide
+
 /-- every path that stays on the read side reads the selector in one section, before its first `Select` -/
 theorem reader_programs_one_section :
     ∀ p ∈ Gen.selectorPrograms, readerProg p = true → oneSection p = true := by decide
@@ -117,6 +142,15 @@ theorem zmq_programs_balanced : ∀ p ∈ Gen.zmqPrograms, balanced p = true := 
 
 theorem zmq_programs_flat : ∀ p ∈ Gen.zmqPrograms, flat p = true :=
   fun p hp => balanced_flat p (zmq_programs_balanced p hp)
+
+/-- … and waits for the lock (a balanced program consists of `Lock` / `Unlock` only) -/
+theorem zmq_programs_blocking : ∀ p ∈ Gen.zmqPrograms, blocking p = true := by
+  intro p hp
+  have h := balanced_mutex_only p (zmq_programs_balanced p hp)
+  unfold blocking
+  rw [List.all_eq_true]
+  intro o ho
+  rcases h o ho with rfl | rfl <;> decide
 
 /-- the extractor's coverage obligation: each occurrence of `selectorMutex`, `ipSelector`, `zmqMutex` in
 the non-test sources is visited by a path of the tables or is an access to an object that the same
@@ -148,19 +182,24 @@ example : orderAcyclic (nestings [(0, .rlock), (0, .rlock), (0, .runlock), (0, .
 
 /-- **C13 for the extracted programs.** Any number of goroutines, each following any path through any
 entry point that touches the selector lock (requests of every kind, reloads): every reachable state is
-finished or can step, every run can be completed, no run is longer than the initial measure, and every
-thread that stays on the read side (every request) has used one selector version for all its selections. -/
+finished or can step, every run can be completed — to a state in which everything has finished and nobody
+has been refused —, no run is longer than the initial measure, nobody is ever refused (no request or reload
+returns an error because the lock was busy), and every thread that stays on the read side (every request)
+has used one selector version for all its selections. -/
 theorem registrar_keeps_answering (progs : List (List Op))
     (hp : ∀ p ∈ progs, p ∈ Gen.selectorPrograms)
     (sched : List Nat) (s : St) (h : exec (init progs) sched = some s) :
     (allDone s = true ∨ ∃ i s', step s i = some s') ∧
-    (∃ rest s', exec s rest = some s' ∧ allDone s' = true) ∧
+    (∃ rest s', exec s rest = some s' ∧ allDone s' = true ∧ anyRefused s' = false) ∧
     sched.length + measure s ≤ measure (init progs) ∧
+    anyRefused s = false ∧
     ∀ (j : Nat) (p : List Op), progs[j]? = some p → readerProg p = true →
       ∃ t v, s.ths[j]? = some t ∧ ∀ x ∈ t.seen, x = some v := by
   have hflat : ∀ p ∈ progs, flat p = true := fun p hm => selector_programs_flat p (hp p hm)
-  obtain ⟨hprog, hcomp⟩ := never_blocked _ hflat sched s h
-  refine ⟨hprog, hcomp, measure_exec h, ?_⟩
+  have hblk : ∀ p ∈ progs, blocking p = true := fun p hm => selector_programs_blocking p (hp p hm)
+  obtain ⟨hprog, rest, s', hrest, hdone⟩ := never_blocked _ hflat sched s h
+  refine ⟨hprog, ⟨rest, s', hrest, hdone, none_refused _ hblk (sched ++ rest) s' (exec_append h hrest)⟩,
+    measure_exec h, none_refused _ hblk sched s h, ?_⟩
   intro j p hj hr
   have hmem := hp p (List.mem_of_getElem? hj)
   exact old_or_new_in_full _ hflat j p hj hr (reader_programs_one_section p hmem hr) sched s h
@@ -218,6 +257,39 @@ theorem leaked_lock_blocks : balanced [Op.lock] = false ∧
   | 0 => decide
   | 1 => decide
   | n + 2 => rfl
+
+/-- the shape `TryRLock` in front of the snapshot gives a request: flat, but not waiting -/
+def tryRequest : List Op := [.tryrlock, .readSel, .runlock, .select]
+
+example : flat tryRequest = true ∧ blocking tryRequest = false := by decide
+
+/-- **Waiting is what matters for being answered**: a request that tries the read lock instead of waiting
+for it is turned away (it finishes refused, without having selected anything) when it arrives while a
+reload is inside its critical section … -/
+theorem try_request_refused_while_reload_swaps :
+    ∃ sched s t, exec (init [tryRequest, [.lock, .swapSel, .unlock]]) sched = some s ∧
+      s.ths[0]? = some t ∧ t.done = true ∧ t.refused = true ∧ t.seen = [] :=
+  ⟨[1, 1, 0], _, _, rfl, rfl, rfl, rfl, rfl⟩
+
+/-- … and also while a reload is only waiting for the write lock behind another request's read section
+(thread 2 keeps a read section open: `gate`) -/
+theorem try_request_refused_behind_pending_reload :
+    ∃ sched s t, exec (init [tryRequest, [.lock, .swapSel, .unlock], [.rlock, .gate, .runlock]]) sched = some s ∧
+      s.ths[0]? = some t ∧ t.done = true ∧ t.refused = true ∧ t.seen = [] :=
+  ⟨[2, 1, 0], _, _, rfl, rfl, rfl, rfl, rfl⟩
+
+/-- the same on the write side: a reload that tries the write lock gives up while a request reads, and the
+selector is never swapped although everything has finished -/
+theorem try_reload_refused_while_request_reads :
+    ∃ sched s t, exec (init [[.trylock, .swapSel, .unlock], [.rlock, .readSel, .runlock, .select]]) sched = some s ∧
+      s.ths[0]? = some t ∧ t.refused = true ∧ allDone s = true ∧ s.ver = 0 :=
+  ⟨[1, 0, 1, 1, 1], _, _, rfl, rfl, rfl, rfl, rfl⟩
+
+-- the waiting programs in the same schedules: the request waits behind the reload and is answered with the new set
+example : ∃ s t, exec (init [[.rlock, .readSel, .runlock, .select], [.lock, .swapSel, .unlock]]) [1, 1, 1, 1, 0, 0, 0, 0] = some s ∧
+    s.ths[0]? = some t ∧ t.refused = false ∧ t.seen = [some 1] ∧ allDone s = true :=
+  ⟨_, _, rfl, rfl, rfl, rfl, rfl⟩
+example : step ((exec (init [[.rlock, .readSel, .runlock, .select], [.lock, .swapSel, .unlock]]) [1, 1]).getD default) 0 = none := rfl
 
 -- hypotheses are satisfiable: a dual-stack request, a v4 request and two reloads, part-way through a run
 example : ∃ s, exec (init ([[.rlock, .readSel, .runlock, .select, .select], [.rlock, .readSel, .runlock, .select]] ++
